@@ -522,3 +522,8 @@ def run(prog: Program, res: Result) -> None:  # noqa: PLR0912, PLR0915
                 else:
                     res.fail("C16.R9", file=f.file, line=c.lineno, qualname=f.qualname, construct=f"filter {fname}: left operand handed to {callee}() without an undefined test", message=f"filter `{fname}` passes its left operand straight to {callee}(), which knows nothing of Undefined: under the default policy `{{{{ missing | {fname} }}}}` raises a type error where `{{{{ nil | {fname} }}}}` renders - a missing variable does not behave as nil", what=what)
     res.floor("C16.R9", "left operands handed to functions outside liquid2", n9, 1)
+
+    res.rule("C16.R10", "the undefined policy in force is the rendering Environment's: env.undefined is read from template.env, so a caching loader shared by a strict and a default-policy environment hands a cached template only to the Environment it was parsed for - unconditionally, sync and async (shared with C14.R5): otherwise the default policy raises UndefinedError for a variable that is merely absent")
+    from checks.shared import check_cache_hit_environment
+
+    check_cache_hit_environment(prog, res, "C16.R10")
